@@ -1,0 +1,9 @@
+//go:build verif
+
+package internal
+
+// Contracts for the deductive verifier in /verif (govc). Comment-only; compiled only with -tags verif.
+
+//@ contract ProcessCallback
+//@   modifies world(ctx)
+//@   ensures discard_on_error: err != nil ==> world(ctx) == old(world(ctx))
